@@ -152,9 +152,11 @@ def parse_reg(s):
     return reg
 
 
-def spec_api(reg, trigs, now, toks):
+def spec_api(reg, trigs, now, toks, fault=None):
     """Registry specification (C09).  toks: op tokens after the clock.  Mutates reg/trigs.
-    Returns (result, calls) as printed."""
+    Returns (result, calls) as printed.  fault = "push" | "remove": the queue's next Push / Remove fails with a
+    transient error; the call must hand that error back (EQF) -- what is left of the entry is what the current
+    code leaves (Remove failed: nothing changed; Push failed after the Remove: the entry is lost)."""
     op = toks[0]
     if op == "S":
         name, group, r, s, tid = toks[1:6]
@@ -171,6 +173,8 @@ def spec_api(reg, trigs, now, toks):
             if res.startswith("E"):
                 return err_of(res), calls
             ent = [0, int(res), tid]
+        if fault == "push":
+            return "EQF", calls
         if k in reg and r != "1":
             return "EAE", calls
         reg[k] = ent
@@ -180,6 +184,8 @@ def spec_api(reg, trigs, now, toks):
         if name == "-nil-":
             return "EIA", []
         k = name + "/" + group
+        if op == "D" and fault == "remove":
+            return "EQF", []
         if k not in reg:
             return "ENF", []
         e = reg[k]
@@ -191,6 +197,11 @@ def spec_api(reg, trigs, now, toks):
         if op == "P":
             if e[0]:
                 return "ESU", []
+            if fault == "remove":
+                return "EQF", []
+            if fault == "push":
+                del reg[k]
+                return "EQF", []
             reg[k] = [1, MAXI, e[2]]
             return "ok", []
         if not e[0]:
@@ -199,6 +210,11 @@ def spec_api(reg, trigs, now, toks):
         calls = ["%d:%d:%s" % (e[2], now, res)]
         if res.startswith("E"):
             return err_of(res), calls
+        if fault == "remove":
+            return "EQF", calls
+        if fault == "push":
+            del reg[k]
+            return "EQF", calls
         reg[k] = [0, int(res), e[2]]
         return "ok", calls
     if op == "C":
@@ -381,9 +397,9 @@ def run_steps(ctx, binp, ml, profile, seed, only=None, timeout=900):
             want = None
             got = o
             susp_before = ()
-            if t[0] == "A":
+            if t[0] in ("A", "AXP", "AXR"):
                 res["api_calls"] += 1
-                r, calls = spec_api(reg, trigs, int(t[1]), t[2:])
+                r, calls = spec_api(reg, trigs, int(t[1]), t[2:], {"AXP": "push", "AXR": "remove"}.get(t[0]))
                 cls = r.split(":")[0]
                 res["result_classes"][cls] = res["result_classes"].get(cls, 0) + 1
                 want = r + " [" + ",".join(calls) + "] | " + reg_str(reg)
@@ -455,7 +471,7 @@ def tags_of(f):
         return {"C09"}                     # a whole API sequence
     t = step.split()
     o, w = f["observed"], f["specification"]
-    if t[0] == "A":
+    if t[0] in ("A", "AXP", "AXR"):
         tg = {"C09"}
         op, wp = o.split(" | "), w.split(" | ")
         state_differs = len(op) != 2 or len(wp) != 2 or op[1] != wp[1]
@@ -466,6 +482,8 @@ def tags_of(f):
             tg.add("C08")      # the call did not take the effect on firing it should have (a wrong error class alone is C09's)
         if t[2] in "SR" and (calls_differ or (both_ok and state_differs)):
             tg.add("C04")      # initial / resumed fire time
+        if t[2] == "S" and both_ok and state_differs and not calls_differ:
+            tg.add("C03")      # the entry does not carry the fire time its own trigger returned for this call
         return tg
     if t[0] == "X":
         return {"C09"}         # the harness's own queue calls: the queue does not meet the contract the model assumes
@@ -791,7 +809,7 @@ def free_phase(prop, binp, configs, millis, seeds):
 
 
 GATES = {
-    "C04": [["pool", "none", "3"], ["pool", "none", "1"]],
+    "C04": [["pool", "none", "3"], ["pool", "none", "1"], ["both", "2"]],
     "C08": [["pool", "pause", "3"], ["pool", "delete", "3"], ["pool", "clear", "2"],
             ["window", "clear"], ["window", "pause"], ["window", "delete"]],
     "C03": [],
@@ -827,6 +845,13 @@ def gate_phase(prop, binp, repeat=1):
                     if g["once_executions"] != 1 or g["once_listed"]:
                         why.append("a run-once job that became due while the pool was saturated ran %d times (listed afterwards: %s); "
                                    "expected exactly once, then gone" % (g["once_executions"], g["once_listed"]))
+            if g["scenario"] == "both" and prop == "C04":
+                if g["executions"] == 0 or g["on_time_calls"] - g["executions"] > 0:
+                    why.append("WithBlockingExecution + WithWorkerLimit(%d): %d fire times dequeued as due, %d executions in 0.4 s of a 10 ms job "
+                               "(the worker limit is documented as ignored in blocking mode)" % (g["workers"], g["on_time_calls"], g["executions"]))
+                if g["once_executions"] != 1 or g["once_listed"]:
+                    why.append("WithBlockingExecution + WithWorkerLimit: the run-once job ran %d times (listed afterwards: %s)" % (
+                        g["once_executions"], g["once_listed"]))
             if g["scenario"] == "window" and prop == "C08" and g["entered_window"] and g["op_result"] == "ok":
                 if g["trigger_calls_after"] > 0:
                     why.append("%s returned Ok while fetchAndReschedule was between Pop and Push (op waited for the step: %s); afterwards the "
